@@ -4,10 +4,10 @@ From Compio.Thm Require Import TaskThm.
 Local Open Scope nat_scope.
 Local Opaque Nat.ltb Nat.eqb Nat.leb.
 
-Lemma sched_pres_5 s l s' : part l = 5 -> Gsched s -> step fixed s l = Some s' -> Gsched s'.
+Lemma res_pres_8 s l s' : part l = 8 -> Grc s -> Gres s -> step fixed s l = Some s' -> Gres s'.
 Proof.
-  intros Hp. intros HI Hs. pres_start_part s l Hs Hp.
-  all: destruct HI; constructor; cbn in *.
+  intros Hp. intros HR HI Hs. pres_start_part s l Hs Hp.
+  all: destruct HR; destruct HI; constructor; unf; cbn in *.
   all: try assumption.
   all: fin2.
 Qed.
